@@ -42,14 +42,35 @@ package x509
 //@ ensures [removes-sct-list-extension] result0 == rm.res0 && result1 == rm.res1
 //@ at rm assert [targets-sct-list-oid] rm.tbsData == tbsData && rm.oid == OIDExtensionCTSCT
 
+//@ uf issuerAKIAt(j int) bool
+//@ uf tbsAKIAt(j int) bool
+// issuerAKIAt(j) / tbsAKIAt(j): "extension j of the pre-issuer / of the de-poisoned TBSCertificate is the
+// authority key identifier", the results of Id.Equal(OIDExtensionAuthorityKeyId) observed in the two
+// single-pass searches of BuildPrecertTBS.
+
 //@ func BuildPrecertTBS
 //@ props C01 C03
 //@ arith int
 //@ pure
 //@ site removeExtension#1 as rm
 //@ site asn1.Unmarshal#1 as um
+//@ site Equal#1 as eq1
+//@ site Equal#2 as eq2
 //@ site asn1.Marshal#1 as m
+//@ site store:Raw#1 as done
 //@ let out = as(m.val, tbsCertificate)
+//@ let n = after(um, len(tbs.Extensions))
+//@ after eq1 define issuerAKIAt(rangeindex + 1) == eq1.res
+//@ after eq2 define tbsAKIAt(i) == eq2.res
+//@ at eq1 assert [searches-preissuer-extensions-for-aki] eq1.oi == preIssuer.Extensions[rangeindex + 1].Id && eq1.other == OIDExtensionAuthorityKeyId
+//@ at eq2 assert [searches-tbs-extensions-for-aki] eq2.oi == after(um, tbs.Extensions[i].Id) && eq2.other == OIDExtensionAuthorityKeyId
+//@ loop 1 invariant issuerKeyID == nil && (forall j int :: 0 <= j && j <= rangeindex ==> !issuerAKIAt(j))
+//@ loop 3 invariant keyAt == -1 && (forall j int :: 0 <= j && j <= rangeindex ==> !tbsAKIAt(j))
+//@ at done assert [aki-search-results] preIssuer != nil ==> (keyAt == -1 || (0 <= keyAt && keyAt < n && tbsAKIAt(keyAt))) && (keyAt == -1 ==> (forall j int :: 0 <= j && j < n ==> !tbsAKIAt(j)))
+//@ at done assert [aki-replaced-in-place-keeping-id-and-criticality] preIssuer != nil && keyAt >= 0 && issuerKeyID != nil ==> len(tbs.Extensions) == n && tbs.Extensions[keyAt].Value == issuerKeyID && tbs.Extensions[keyAt].Id == after(um, tbs.Extensions[keyAt].Id) && tbs.Extensions[keyAt].Critical == after(um, tbs.Extensions[keyAt].Critical) && (forall j int :: 0 <= j && j < n && j != keyAt ==> tbs.Extensions[j] == after(um, tbs.Extensions[j]))
+//@ at done assert [aki-removed-when-preissuer-has-none] preIssuer != nil && keyAt >= 0 && issuerKeyID == nil ==> len(tbs.Extensions) == n - 1 && (forall j int :: 0 <= j && j < keyAt ==> tbs.Extensions[j] == after(um, tbs.Extensions[j])) && (forall j int :: keyAt <= j && j < n - 1 ==> tbs.Extensions[j] == after(um, tbs.Extensions[j+1]))
+//@ at done assert [aki-appended-when-only-preissuer-has-one] preIssuer != nil && keyAt < 0 && issuerKeyID != nil ==> len(tbs.Extensions) == n + 1 && tbs.Extensions[n].Id == OIDExtensionAuthorityKeyId && !tbs.Extensions[n].Critical && tbs.Extensions[n].Value == issuerKeyID && (forall j int :: 0 <= j && j < n ==> tbs.Extensions[j] == after(um, tbs.Extensions[j]))
+//@ at done assert [extensions-untouched-when-neither-has-aki] preIssuer != nil && keyAt < 0 && issuerKeyID == nil ==> len(tbs.Extensions) == n && (forall j int :: 0 <= j && j < n ==> tbs.Extensions[j] == after(um, tbs.Extensions[j]))
 //@ ensures [poison-removal-failure-propagates] rm.res1 != nil ==> result1 != nil && result0 == nil
 //@ ensures [result-is-the-remarshalled-tbs] result1 == nil ==> rm.res1 == nil && um.called && um.res1 == nil && len(um.res0) == 0 && m.called && m.res1 == nil && result0 == m.res0
 //@ at rm assert [removes-the-poison-extension] rm.tbsData == tbsData && rm.oid == OIDExtensionCTPoison
